@@ -46,8 +46,8 @@ PROPS = {
         R("rand", "64", "mem", 160, 120), R("rand", "32", "mem", 160, 120), R("det", "64", "mem", 60, 120),
         R("plain", "32", "mem", 60, 120)]),
     "C12": dict(tags=["C12"], runs=[
-        R("rand", "64", "dense", 40, 1), R("rand", "32", "dense", 40, 1), R("det", "64", "dense", 16, 1),
-        R("rand", "typed", "typeddense", 8, 1)]),
+        R("rand", "64", "dense", 40, 1, thor=(240, 1)), R("rand", "32", "dense", 40, 1, thor=(240, 1)), R("det", "64", "dense", 16, 1, thor=(60, 1)),
+        R("rand", "typed", "typeddense", 8, 1, thor=(40, 1))]),
     "C13": dict(tags=["C13"], runs=[
         R("rand", "64", "iter", 160, 50), R("rand", "32", "iter", 160, 50), R("det", "32", "iter", 80, 50),
         R("rand", "typed", "typediter", 60, 40)]),
